@@ -121,6 +121,33 @@ def sweep(ctx, n):
             if not np.allclose(B[j, j], mu_0 * H[j, j] + g.polarization, atol=1e-9 * (np.abs(B[j, j]).max() + 1)):
                 fails.append({"key": f"bhjm-consistency-joint:{mcls}", "desc": "in a joint call B != mu0*H + polarization inside a body", "replay": {"class": mcls, "source_index": j}})
                 break
+    # rows of box meshes with equal face counts in adversarial arrangements (same mesh re-appearing after another one,
+    # concentric sizes): jointly evaluated, at interior lattice points and outside points, every body alone gives the same
+    from oracles.sources import lattice_points, mesh_row
+    for i in range(max(3, n // 40)):
+        nps = np.random.default_rng(rng.randrange(2**31))
+        kind, meshes, cubs, dims, poss, oris = mesh_row(rng, nps, rotate=True)
+        for j, (ms, d, q, o) in enumerate(zip(meshes, dims, poss, oris)):
+            loc = np.concatenate([lattice_points(d, nps, 5), nps.uniform(0.55, 0.9, (2, 3)) * d * nps.choice([-1, 1], (2, 3))])
+            obs = (o.apply(loc) if o is not None else loc) + q
+            inside = np.arange(len(loc)) < 5
+            Jj, Bj, Hj = magpy.getJ(meshes, obs)[j], magpy.getB(meshes, obs)[j], magpy.getH(meshes, obs)[j]
+            done += len(obs)
+            want = np.where(inside[:, None], ms.polarization if o is None else o.apply(ms.polarization), 0.0)
+            if not np.allclose(Jj, want, atol=1e-12) or not np.allclose(Bj, mu_0 * Hj + want, atol=1e-9):
+                fails.append({"key": "bhjm-consistency-joint:TriangularMesh", "desc": f"row of box meshes ({kind}): J / B - mu0*H of body {j} in the joint call is not its own polarization inside and 0 outside",
+                              "replay": {"arrangement": kind, "source_index": j, "dims": [np.asarray(x).tolist() for x in dims], "observers": obs.tolist(), "J": Jj.tolist()}})
+                break
+    from oracles.sources import lattice_box_case
+    for _ in range(max(2, n // 60)):
+        nps = np.random.default_rng(rng.randrange(2**31))
+        mesh, cub, obs = lattice_box_case(rng, nps)
+        J, B, H = magpy.getJ(mesh, obs), magpy.getB(mesh, obs), magpy.getH(mesh, obs)
+        done += len(obs)
+        if not np.allclose(J, mesh.polarization, atol=1e-12) or not np.allclose(B, mu_0 * H + mesh.polarization, atol=1e-9):
+            k = int(np.argmax(np.abs(J - mesh.polarization).max(axis=1) + np.abs(B - mu_0 * H - mesh.polarization).max(axis=1)))
+            fails.append({"key": "j-indicator:TriangularMesh", "desc": "J is not the polarization (or B != mu0*H + J) at an interior grid point of a box mesh",
+                          "replay": {"dimension": np.asarray(cub.dimension).tolist(), "observer": obs[k].tolist(), "J": J[k].tolist(), "polarization": np.asarray(mesh.polarization).tolist()}})
     # attribute relation under assignment histories
     attr_bad = None
     nps = np.random.default_rng(rng.randrange(2**31))
